@@ -470,6 +470,34 @@ pub fn run_pass(ctx: &Ctx, report: &Report, fams: &[vpe1::Family], tag: &str, st
         eprintln!("[{}] derived alias-duplicated programs checked: {}", if tag.is_empty() { "d1" } else { tag }, n_derived.load(Ordering::Relaxed));
     }
 
+    // constants with their negatives: products minus / plus a constant c and its opposite -c
+    // (constant index 4 = -constant index 2; only this family refers to it)
+    {
+        use vpe1::enumerate::{AK, VK};
+        use vpe1::families::{stage, staged};
+        let f = staged(
+            "products-2-then-subadd-const-2",
+            vec![stage(&[VK::Mul], 2, &[0], true, false), stage(&[VK::Sub, VK::Add], 2, &[1], false, true)],
+            &[AK::Connect],
+            1,
+            3,
+            &[2, 4],
+        );
+        let (s2, p2, st2) = (SeenSet::default(), SeenSet::default(), Stats::default());
+        explore::<BabyBear, F>(&f, &cs, ctx, 0.95, &s2, &p2, &st2, &|p, m| {
+            if let Some(fnd) = check_api(p, m, &cs) {
+                record(p, fnd);
+            }
+        }, &|p, _m| {
+            if let Ok(found) = check_program(p, &cs, Some(&cnt), Some(&outcomes)) {
+                for fnd in found {
+                    record(p, fnd);
+                }
+            }
+        });
+        eprintln!("[{}] family {} histories={} canonical={}", if tag.is_empty() { "d1" } else { tag }, f.name, st2.histories.load(Ordering::Relaxed), st2.canonical.load(Ordering::Relaxed));
+    }
+
     for fam in fams {
         let stats = Stats::default();
         // pruning is per family: the subtree below a state depends on the family's bounds
